@@ -96,9 +96,12 @@ static std::string cross(FCtx& fc, const TypeOps& X, const TypeOps& Y, Tape& tp,
   if (wy.bytes != wx.bytes) {
     // allowed difference: MAP entry order when an unordered_map is involved
     if (has_unordered(*X.schema) || has_unordered(*Y.schema) || has_kind(*X.schema, K::Map)) {
+      // Each encoding is decoded with the references ITS writer handed out: with another entry order the
+      // handles are pushed in another order and receive other references (of possibly another encoded size).
       DecodeOpts dopt; auto ht = handle_table(wx.pushed); dopt.handles = &ht;
-      Decoded d1 = ref_decode(*Y.schema, wx.bytes, dopt), d2 = ref_decode(*Y.schema, wy.bytes, dopt);
-      if (!d1.ok || !d2.ok || !value_equal(*Y.schema, d1.value, d2.value) || wx.bytes.size() != wy.bytes.size()) return fmt("re-encode-differs: %s -> %s: %s vs %s", X.name.c_str(), Y.name.c_str(), hex(wx.bytes).substr(0, 120).c_str(), hex(wy.bytes).substr(0, 120).c_str());
+      DecodeOpts dopt2; auto ht2 = handle_table(wy.pushed); dopt2.handles = &ht2;
+      Decoded d1 = ref_decode(*Y.schema, wx.bytes, dopt), d2 = ref_decode(*Y.schema, wy.bytes, dopt2);
+      if (!d1.ok || !d2.ok || !value_equal(*Y.schema, d1.value, d2.value) || (!Y.has_handle && wx.bytes.size() != wy.bytes.size())) return fmt("re-encode-differs: %s -> %s: %s vs %s", X.name.c_str(), Y.name.c_str(), hex(wx.bytes).substr(0, 120).c_str(), hex(wy.bytes).substr(0, 120).c_str());
       c.rep.exclude("re-encoding compared up to MAP entry order");
     } else return fmt("re-encode-differs: %s -> %s: %s vs %s", X.name.c_str(), Y.name.c_str(), hex(wx.bytes).substr(0, 120).c_str(), hex(wy.bytes).substr(0, 120).c_str());
   }
